@@ -48,7 +48,9 @@ Record cfg := {
   c_client : bool;            (* perspective == PerspectiveClient *)
   c_keepAlivePeriod : Z;      (* config.KeepAlivePeriod *)
   c_maxIdleTimeout : Z;       (* config.MaxIdleTimeout *)
-  c_hsIdleTimeout : Z }.      (* config.HandshakeIdleTimeout *)
+  c_hsIdleTimeout : Z;        (* config.HandshakeIdleTimeout *)
+  c_ownAdvIdle : Z }.         (* Conn.advertisedIdleTimeout: the max_idle_timeout a spec-driven client put on the wire
+                                 (after suppression); 0 = none advertised / not a spec-driven client *)
 
 Definition hsTimeout (c : cfg) : Z := 2 * c_hsIdleTimeout c.   (* Config.handshakeTimeout *)
 
@@ -151,7 +153,9 @@ Definition routing_after (a : action) : Z :=
 Definition applyTP (s : st) (peerIdle peerAdv : Z) : st :=
   let idle0 := c_maxIdleTimeout (cf s) in
   let idle := if 0 <? peerIdle then Z.min idle0 peerIdle else idle0 in
-  let kaIdle := if 0 <? peerAdv then Z.min idle peerAdv else idle in
+  let kaIdle0 := if 0 <? peerAdv then Z.min idle peerAdv else idle in
+  (* the peer also counts the idle timeout WE advertised (repo 97504e3): a spec may advertise less than is enforced *)
+  let kaIdle := if 0 <? c_ownAdvIdle (cf s) then Z.min kaIdle0 (c_ownAdvIdle (cf s)) else kaIdle0 in
   {| cf := cf s; hsComplete := hsComplete s; idleTimeout := idle;
      kaInterval := Z.min (c_keepAlivePeriod (cf s)) (kaIdle / 2);
      creation := creation s; lastRecv := lastRecv s; firstAE := firstAE s; kaSent := kaSent s;
